@@ -1,9 +1,10 @@
-(* C06 — provisional property file: the Reader-side theorems are being proved in ReaderProofs.v /
-   LifecycleProofs.v; until they are integrated this file carries the header-level facts already closed. *)
-From LZ4V Require Import Base GenBlock GenStream GenLz4 XXH32 FrameImpl Writer Reader HeaderSpec HeaderProofs.
-Theorem C06_header_exact : header_exact_stmt.         Proof. exact header_exact. Qed.
-Print Assumptions C06_header_exact.
-Theorem C06_skippable_exact : header_skippable_stmt.  Proof. exact header_skippable. Qed.
-Print Assumptions C06_skippable_exact.
-Theorem C06_badmagic : header_badmagic_stmt.          Proof. exact header_badmagic. Qed.
-Print Assumptions C06_badmagic.
+(* C06 — Truncated frames are never presented as complete. *)
+From LZ4V Require Import Base GenBlock GenStream GenLz4 XXH32 BlockFormat FrameSpec FrameImpl Writer Reader FrameTheoremsSpec ReaderProofs Lifecycle ReaderSpec2 ReaderProofs2.
+(* every frame a Writer session can emit (any accepted options, modern; any writes and flushes), cut at
+   EVERY position 1 <= k < len: reading ends with an error that is neither nil nor io.EOF, and the
+   bytes delivered before it are a prefix of the content *)
+Theorem C06_truncation : truncation2_stmt.   Proof. exact truncation2. Qed.
+Print Assumptions C06_truncation.
+(* the same through Read with any buffer size, by C02_read_eq_writeto *)
+Theorem C06_read : reader_read_eq_writeto_stmt.  Proof. exact reader_read_eq_writeto. Qed.
+Print Assumptions C06_read.
